@@ -319,7 +319,9 @@ class Case:
         if not isz(x) and not isz(y):
             d = abs(float(x) - float(y))
             return self.prove(name, bool(d <= tol), (), None, key) if d <= tol else self.prove(name, False, assume, replay, key)
-        d = z3.simplify(sc.toreal(sc.toz(x)) - sc.toreal(sc.toz(y)), som=True)
+        d = z3.simplify(sc.toreal(sc.toz(x)) - sc.toreal(sc.toz(y)))  # cheap normalisation first: identical structure collapses to 0
+        if not (z3.is_rational_value(d) or z3.is_int_value(d)):
+            d = z3.simplify(d, som=True)
         if z3.is_rational_value(d) or z3.is_int_value(d):
             v = abs(float(d.as_fraction()))
             return self.prove(name, True) if v <= tol else self.prove(name, False, assume, replay, key)
